@@ -71,6 +71,8 @@ def eval_atom(e, sc, info, cx, crate):
                 info["take"] = took
                 info["prefix_param"] = a[2][0][1]
                 return sc["itereq"]
+    if e[0] == "discr" and is_call(e[1], "next") and is_call(e[1][2][0], "chars") and c04.is_state_s(e[1][2][0][2][0], S1):
+        return 0 if sc["empty"] else 1
     if e[0] == "discr":
         inner = e[1]
         # discr(Try::branch(ok_or_else(next(chars(s)), ..)))  0 = Continue ; discr(next(chars)) 1 = Some
@@ -177,11 +179,16 @@ def check_matcher(cx, chk, crate, p, label):
     spec = CONTRACTS.get(name)
     if spec is None:
         return 0
+    from .. import sem
     try:
-        rows = finite.return_table(b)
-    except RuntimeError as ex:
+        sm = sem.Sem(cx, crate).summarize(p)
+    except sem.SemLimit as ex:
         chk.violation("C01.prim", "%s %s paths" % (label, name), str(ex), cx.site(b))
         return 0
+    if not sm.complete or sm.loopbacks:
+        chk.violation("C01.prim", "%s %s loop" % (label, name), "terminal matcher %s contains a loop the contract model does not summarise" % name, cx.site(b))
+        return 0
+    rows = [([(a, v) for (a, v) in leaf.assume], leaf.ret if leaf.kind == "return" else None, leaf) for leaf in sm.leaves]
     nparams = b.arg_count
     char_params = [k for k in range(2, nparams + 1) if b.ty(k) == "char"]
     # scenario space
@@ -348,34 +355,78 @@ def check_prim(cx, chk, crate, label):
             n += 1
             total += check_matcher(cx, chk, crate, p, label)
     chk.floor("C01.prim", "%s terminal matchers with a contract" % label, n, 7)
-    chk.floor("C01.prim", "%s scenarios evaluated" % label, total, 100)
+    chk.floor("C01.prim", "%s scenarios evaluated" % label, total, 60)
     # the string-insensitive matcher takes exactly len(literal) bytes
     # parse_Whitespace: loop structure (always Ok, returns the last state, continues on the byte class) - C08.set + below
     ps = [p for p in crate.fns if p.endswith("builtin_parsers::parse_Whitespace")]
     if ps:
-        b = cx.body(crate, ps[0])
-        rets = [norm(b.expr_rv(d[3])) for d in b.defs.get(0, []) if d[2] == "rv"]
-        adv = [(i, t) for i, t in b.calls() if last(t["func"]["path"]) == "advance"]
-        good = len(rets) == 1 and rets[0][0] == "agg" and rets[0][2] == "Ok" and len(adv) == 1
-        if good:
-            po = rets[0][3][0][1]
-            st = dict(po[3]).get("state")
-            ai, at = adv[0]
-            loopvar = norm(b.expr_op(at["args"][0]))
-            dest_ok = st == loopvar and loopvar[0] == "local"
-            # the advanced state is stored back into the loop variable
-            stored = any(d[0] in b.reachable_from(at["target"]) and d[2] == "rv" and norm(b.expr_rv(d[3], frozenset([loopvar[1]]))) == norm(b.expr_local(at["dest"]["l"]))
-                         for d in b.defs.get(loopvar[1], [])) if loopvar[0] == "local" else False
-            good = dest_ok and stored and b.has_loop()
-        if good:
-            chk.ok("C01.prim", "%s parse_Whitespace loop" % label, {"returns": "Ok((), last state)", "loop": "state = advance(state, 1) while first byte in class"})
-        else:
-            chk.violation("C01.prim", "%s parse_Whitespace shape" % label, "builtin whitespace skipper is not `loop { state = advance(state,1) } ; Ok(((), state))`", cx.site(b))
+        check_ws_loop(cx, chk, crate, ps[0], label)
+
+
+def check_ws_loop(cx, chk, crate, p, label):
+    """The builtin whitespace skipper is `state := entry; while !empty(state) && class(first byte) { state := advance(state, 1) }; Ok(((), state))`,
+    read off the loop summary: one havocked loop variable, its initial value, the trip round the loop and the exits."""
+    from .. import sem
+    b = cx.body(crate, p)
+    probs = []
+    try:
+        sm = sem.Sem(cx, crate).summarize(p)
+    except sem.SemLimit as ex:
+        sm = None
+        probs.append(str(ex))
+    if sm is not None:
+        if not sm.complete or not sm.loopbacks:
+            probs.append("no single loop found")
+        LV = None
+        for leaf in sm.leaves + sm.loopbacks:
+            inits = [ev[0] for ev in leaf.trace if ev[0][0] == "loopinit"]
+            if len(inits) != 1:
+                probs.append("more than one loop")
+                continue
+            st_inits = [(l, v) for (l, v) in inits[0][3] if v == S1]
+            if len(st_inits) != 1:
+                probs.append("the loop does not start from the entry state")
+                continue
+            LV = mir.mk("loopvar", inits[0][1], inits[0][2], st_inits[0][0])
+
+            def holds(pred, want):
+                return any(v is want and pred(a) for (a, v) in leaf.assume)
+            nonempty = holds(lambda a: is_call(a, "is_empty") and len(a[2]) == 1 and (a[2][0] == LV or c04.is_state_s(a[2][0], LV)), False)
+            empty = holds(lambda a: is_call(a, "is_empty") and len(a[2]) == 1 and (a[2][0] == LV or c04.is_state_s(a[2][0], LV)), True)
+            inclass = holds(lambda a: is_call(a, "is_ascii_whitespace") and c04.is_byte0(a[2][0], LV), True)
+            notclass = holds(lambda a: is_call(a, "is_ascii_whitespace") and c04.is_byte0(a[2][0], LV), False)
+            if leaf.kind == "loopback":
+                nv = dict(leaf.ret[2]).get(LV[3])
+                if not (nv is not None and is_call(nv, "advance") and tuple(nv[2]) == (LV, mir.mk("const", "usize", 1))):
+                    probs.append("a trip round the loop does not advance the state by one byte: %s" % (mir.show(nv)[:100] if nv else "?"))
+                if not (nonempty and inclass):
+                    probs.append("the loop continues without a non-empty input whose first byte is in the class")
+            elif leaf.kind == "return":
+                r = leaf.ret
+                c = classify(r, b, cx, crate)
+                if not (c[0] == "ok" and c[2] == LV and c[1] is not None and c[1][0] == "tuple" and not c[1][1]):
+                    probs.append("returns %s instead of Ok(((), last state))" % mir.show(r)[:120])
+                if not (empty or (nonempty and notclass)):
+                    probs.append("the loop can stop although the first byte is in the class")
+            else:
+                probs.append("a path ends in a %s" % leaf.kind)
+    if not probs:
+        chk.ok("C01.prim", "%s parse_Whitespace loop" % label, {"returns": "Ok((), last state)", "loop": "state = advance(state, 1) while first byte in class",
+                                                                 "leaves": len(sm.leaves), "loopbacks": len(sm.loopbacks)})
+    else:
+        chk.violation("C01.prim", "%s parse_Whitespace shape" % label, "builtin whitespace skipper is not `loop { state = advance(state,1) } ; Ok(((), state))`: %s"
+                      % sorted(set(probs)), cx.site(b))
 
 
 def check_ax(cx, chk):
+    """map_inner / discard_result decided from their semantic summaries (helpers inlined): Ok(ok) -> Ok(ParseOk{f(ok.result), ok.state}),
+    Err(e) -> Err(e)."""
+    from .. import sem
+    from . import semspec
     rt = cx.runtime
-    # map_inner(f) == self.map(|ok| ok.map(f)) ; discard_result == map_inner(|_| ())
+    P1, P2 = mir.mk("param", 1), mir.mk("param", 2)
+    OKV = mir.mk("field", mir.mk("downcast", P1, "Ok"), "0")
+    ERRV = mir.mk("field", mir.mk("downcast", P1, "Err"), "0")
     for nm in ("map_inner", "discard_result"):
         ps = [p for p in rt.fns if last(p) == nm and "ParseResultExtras" in p and "mir" in rt.fns[p] and not p.endswith("}")]
         ps = [p for p in ps if rt.fns[p].get("impl_trait") or "as parse_result::ParseResultExtras" in p]
@@ -383,27 +434,44 @@ def check_ax(cx, chk):
             chk.anchor_missing("C01.ax", "ParseResultExtras::%s impl" % nm)
             continue
         b = cx.body(rt, ps[0])
-        ds = b.defs.get(0, [])
-        e = norm(b.expr_call(ds[0][3])) if len(ds) == 1 and ds[0][2] == "call" else None
-        good = False
-        if nm == "map_inner" and e is not None and is_call(e, "map") and "Result" in e[1] and e[2][0] == ("param", 1) and e[2][1][0] == "closure":
-            cb = cx.body(rt, e[2][1][1])
-            cds = cb.defs.get(0, []) if cb else []
-            ce = norm(cb.expr_call(cds[0][3])) if len(cds) == 1 and cds[0][2] == "call" else None
-            # |ok| ok.map(f)   with f the captured function
-            if ce is not None and is_call(ce, "map") and "ParseOk" in ce[1] and ce[2][0] == ("param", 2) and ce[2][1][0] == "upvar":
-                good = e[2][1][2] and e[2][1][2][0] == ("param", 2)
-        if nm == "discard_result" and e is not None and is_call(e, "map_inner") and e[2][0] == ("param", 1) and e[2][1][0] == "closure":
-            cb = cx.body(rt, e[2][1][1])
-            cds = cb.defs.get(0, []) if cb else []
-            good = len(cds) == 1 and cds[0][2] == "rv" and norm(cb.expr_rv(cds[0][3])) in (("tuple", ()), ("const", "()", "()"))
-            if not good and len(cds) == 1 and cds[0][2] == "rv":
-                ce = norm(cb.expr_rv(cds[0][3]))
-                good = ce[0] == "tuple" and not ce[1] or (ce[0] == "const" and ce[1] == "()")
-        if good:
-            chk.ok("C01.ax", nm, {nm: mir.show(e)[:160]})
+        S = sem.Sem(cx, rt, inline=lambda q: "parse_result" in q or "ParseResultExtras" in q or "ParseOk" in q)
+        S.enum_of[P1] = sem.RESULT
+        try:
+            sm = S.summarize(ps[0])
+        except sem.SemLimit as ex:
+            chk.violation("C01.ax", nm, "%s could not be summarised: %s" % (nm, ex), cx.site(b))
+            continue
+        probs = []
+        for leaf in sm.leaves:
+            if leaf.kind != "return":
+                probs.append("a path ends in a %s" % leaf.kind)
+                continue
+            eta = semspec.Eta(S, leaf)
+            dc = semspec.discr_case(leaf, P1)
+            r = leaf.ret
+            if dc == 1:
+                if not eta.same(r, sem.err(ERRV)):
+                    probs.append("Err(e) gives %s" % mir.show(r)[:120])
+            elif dc == 0:
+                x = sem.get_field(r, "0") if r[0] == "agg" and r[2] == "Ok" else None
+                if x is None:
+                    probs.append("Ok(ok) gives %s" % mir.show(r)[:120])
+                    continue
+                fs = semspec.fields(x, ["result", "state"])
+                if fs["state"] != mir.mk("field", OKV, "state"):
+                    probs.append("Ok(ok) changes the state: %s" % mir.show(fs["state"])[:100])
+                res = fs["result"]
+                if nm == "map_inner":
+                    if not (res[0] == "icall" and res[1] == P2 and tuple(res[2]) == (mir.mk("field", OKV, "result"),)):
+                        probs.append("Ok(ok) maps the result to %s" % mir.show(res)[:100])
+                elif not (res[0] == "tuple" and not res[1]) and not (res[0] == "const" and res[1] == "()"):
+                    probs.append("Ok(ok) result is %s, not ()" % mir.show(res)[:100])
+            else:
+                probs.append("the result is not examined: %s" % leaf.show()[:120])
+        if not probs:
+            chk.ok("C01.ax", nm, {nm: "Ok(ok) -> Ok(ParseOk{%s, ok.state}); Err(e) -> Err(e)" % ("f(ok.result)" if nm == "map_inner" else "()"), "leaves": len(sm.leaves)})
         else:
-            chk.violation("C01.ax", nm, "%s does not map only the Ok result while keeping state and Err: %s" % (nm, mir.show(e)[:200] if e else "?"), cx.site(b))
+            chk.violation("C01.ax", nm, "%s does not map only the Ok result while keeping state and Err: %s" % (nm, sorted(set(probs))), cx.site(b))
     c09.check_rt(cx, chk)      # map / map_with_state keep the state (records under C09.rt keys)
     c10.check_choice(cx, chk)  # ChoiceHelper: first success wins, alternatives start from a clone of the entry state
     for old, new in (("C09.rt", "C01.ax.maps"), ("C10.choice", "C01.ax.choice")):
@@ -438,7 +506,7 @@ def check_gen(cx, chk):
                 if any(s_[0] == "field" and s_[2] in ("parts", "choices") for s_ in walk(recv)):
                     n += 1
     chk.ok("C01.gen", "iteration sites", {"iter_sites_over_parts_or_choices": n})
-    chk.floor("C01.gen", "iteration sites over parts/choices", n, 8)
+    chk.floor("C01.gen", "iteration sites over parts/choices", n, 4)
 
 
 def check_gen_literals(cx, chk):
@@ -504,7 +572,7 @@ def check_gen_literals(cx, chk):
                 else:
                     chk.violation("C01.gen", "CharacterRange bounds", "the range bounds emitted are not (decoded self.from, decoded self.to) in that order: %s"
                                   % (T.show_tokens(toks or [])[:200]), cx.site(b, i))
-    chk.floor("C01.gen", "literal emission sites", n, 5)
+    chk.floor("C01.gen", "literal emission sites", n, 3)
 
 
 def run(cx, chk):
